@@ -1,7 +1,7 @@
 import Driver.Common
 import GqlModel.Cancel
 /-! Driver for C16.
-in : {"rs":[{"fails":bool,"observes":bool},…], "skipFirst":bool, "cap":n|null,
+in : {"prefix":"f"|"m" (field name prefix: query fields f_i, mutation fields m_i; the machine is the same), "rs":[{"fails":bool,"observes":bool},…], "skipFirst":bool, "cap":n|null,
       "acts":[["step",k,saw]|["finish"]|["ctxDone","canceled"|"deadline"]|["selectCtx"]|["selectResult"], …]}
      `skipFirst`: step 0 is the variable-coercion gate and contributes no field; `cap` null = the code's capacity.
 out: {"valid":bool,"failedAt":i|null,"failedAct":…, "returned":bool, "class":"normal"|"ctx"|null,
@@ -44,15 +44,15 @@ def fieldsOf (skipFirst : Bool) (vals : List Val) : List (Nat × Val) :=
   let vs := if skipFirst then vals.drop 1 else vals
   (List.range vs.length).zip vs
 
-def expected (skipFirst : Bool) : Outcome → Json
+def expected (pre : String) (skipFirst : Bool) : Outcome → Json
   | .ctxError e => Json.mkObj [("data", Json.null), ("errs", Json.arr #[errEntry [] (ctxName e)])]
   | .normal vals =>
     let fs := fieldsOf skipFirst vals
-    let data := fs.map (fun (i, v) => (s!"f{i}", match v with | .value => Json.num ((100 + i : Nat) : JsonNumber) | _ => Json.null))
+    let data := fs.map (fun (i, v) => (s!"{pre}{i}", match v with | .value => Json.num ((100 + i : Nat) : JsonNumber) | _ => Json.null))
     let errs := fs.filterMap (fun (i, v) => match v with
       | .value => none
-      | .failed => some (errEntry [s!"f{i}"] "")
-      | .ctxSeen e => some (errEntry [s!"f{i}"] (ctxName e)))
+      | .failed => some (errEntry [s!"{pre}{i}"] "")
+      | .ctxSeen e => some (errEntry [s!"{pre}{i}"] (ctxName e)))
     Json.mkObj [("data", Json.mkObj data), ("errs", Json.arr errs.toArray)]
 
 def runPrefix (rs : List Resolver) (cap : Nat) (s : St) (i : Nat) : List Act → St × Option Nat
@@ -66,6 +66,9 @@ def handle (j : Json) : Except String Json := do
   let rs ← (← Driver.getArr j "rs").toList.mapM (fun r => do
     pure ({ fails := (← Driver.getBool r "fails"), observes := (← Driver.getBool r "observes") } : Resolver))
   let skipFirst ← Driver.getBool j "skipFirst"
+  let pre := match Driver.getOpt j "prefix" with
+    | some (.str p) => p
+    | _ => "f"
   let cap ← match Driver.getOpt j "cap" with
     | some c => c.getNat?
     | none => pure codeCap
@@ -74,7 +77,7 @@ def handle (j : Json) : Except String Json := do
   let (s, failed) := runPrefix rs cap init 0 acts
   let (returned, cls, exp) := match s.caller with
     | .waiting => (false, Json.null, Json.null)
-    | .returned o => (true, Json.str (match o with | .normal _ => "normal" | .ctxError _ => "ctx"), expected skipFirst o)
+    | .returned o => (true, Json.str (match o with | .normal _ => "normal" | .ctxError _ => "ctx"), expected pre skipFirst o)
   let (ex, done) := match s.exec with
     | .running acc => ("running", acc.length)
     | .sent => ("sent", rs.length)
